@@ -5,6 +5,7 @@ import SF.Lemmas.Welford
 import SF.Lemmas.Rsi
 import SF.Lemmas.Hln
 import SF.Lemmas.Lagf
+import SF.Lemmas.LagRsi
 import SF.Expr
 /-
   C18 — Bounded memory: state size does not grow with stream length.
@@ -46,6 +47,10 @@ theorem rsi_bounded (N : Nat) (hN : 0 < N) : Core.SizeBounded (rsiCore (α := α
   fun xs s h => Rsi.size_le N hN xs s h
 theorem hln_bounded (N : Nat) (hN : 0 < N) : Core.SizeBounded (hlnCore (α := α) N) N :=
   fun xs s h => Hln.size_le N hN xs s h
+
+/-- LaguerreRSI keeps at most three entries in each of its four ladder deques -/
+theorem laguerreRsi_bounded (N : Nat) : Core.SizeBounded (lagRsiCore (α := α) N) 12 :=
+  fun xs s h => LagRsi.size_le N xs s h
 
 /-- LaguerreFilter never holds more than 9 scalars (2 per stage + the latest output), whatever the stream length -/
 theorem laguerre_bounded (g : α) : Core.SizeBounded (lagfCore (α := α) g) 9 :=
